@@ -160,16 +160,14 @@ impl RSim {
         let before = self.hard_fired();
         let out = self.step_inner(ctx, i, op);
         if self.hard_fired() != before {
+            // whatever the operation returned (a value, an error, even a panic of a debug
+            // assertion on the inconsistent state left by a swallowed error) is not asserted
             self.dead = true;
             if let StepOut::Failed = out {
-                if let Some(v) = &ctx.violation {
-                    if !v.oracle.ends_with(".panic") {
-                        ctx.violation = None;
-                        ctx.probe("rsim.result_after_injected_hard_fault_not_asserted");
-                        return StepOut::Err("hard fault injected inside the operation".into());
-                    }
-                }
+                ctx.violation = None;
             }
+            ctx.probe("rsim.result_after_injected_hard_fault_not_asserted");
+            return StepOut::Err("hard fault injected inside the operation".into());
         }
         out
     }
